@@ -6,6 +6,7 @@ cd "$(dirname "$0")/.."
 N=${1:-6}; prefix=${2:-}
 head=$(git -C /repo rev-parse HEAD)
 mkdir -p /tmp/x
+rm -f /tmp/x/seeded_par_[0-9]*.log /tmp/x/seeded_par_all.log
 dirs=(seeded/${prefix}*/)
 pids=()
 for ((i=0;i<N;i++)); do
@@ -31,6 +32,6 @@ for ((i=0;i<N;i++)); do
   pids+=($!)
 done
 wait "${pids[@]}"
-cat /tmp/x/seeded_par_*.log | sort > /tmp/x/seeded_par_all.log
+cat /tmp/x/seeded_par_[0-9]*.log | sort > /tmp/x/seeded_par_all.log
 echo "caught: $(grep -c ': caught by' /tmp/x/seeded_par_all.log)  missed: $(grep -c 'MISSED' /tmp/x/seeded_par_all.log)  other: $(grep -vc ': caught by\|MISSED' /tmp/x/seeded_par_all.log)"
 grep 'MISSED\|NOT-APPLY' /tmp/x/seeded_par_all.log
